@@ -43,6 +43,7 @@ type wscript struct {
 	Chunks       [][]int `json:"chunks"`
 	DelaysUs     []int   `json:"delays_us"`
 	CloseDelayUs int     `json:"close_delay_us"`
+	Hold         bool    `json:"hold"` // keep the write end / connection open until Lines() was seen closed
 }
 
 type tcase struct {
@@ -305,10 +306,24 @@ func runTrace(c tcase, dir string) {
 		failures atomic.Int64
 		sentZero atomic.Bool
 	)
+	var held sync.WaitGroup // every writer has finished, or (holders) has written everything and waits
+	holders := 0
+	for i := range c.Writers {
+		held.Add(1)
+		if c.Writers[i].Hold {
+			holders++
+		}
+	}
 	for i := range c.Writers {
 		wwg.Add(1)
 		go func(w int, s wscript) {
 			defer wwg.Done()
+			released := false
+			defer func() {
+				if !released {
+					held.Done()
+				}
+			}()
 			sleepUs(s.OpenDelayUs)
 			var k sink
 			switch c.Kind {
@@ -379,17 +394,24 @@ func runTrace(c tcase, dir string) {
 				okBytes.Add(int64(len(ch)))
 				all = append(all, ch...)
 			}
+			if s.Hold {
+				// the stream has to end by cancellation (read deadline), not by this writer going away
+				released = true
+				held.Done()
+				waitOrDeadline(closed)
+			} else if len(all) > 0 && all[len(all)-1] != 0 {
+				okTails.Add(1)
+			}
 			sleepUs(s.CloseDelayUs)
 			tr.log("close", "w", w)
 			_ = k.Close()
-			if len(all) > 0 && all[len(all)-1] != 0 {
-				okTails.Add(1)
-			}
 		}(i+1, c.Writers[i])
 	}
 	wdone := make(chan struct{})
 	go func() { wwg.Wait(); close(wdone) }()
-	if !waitOrDeadline(wdone) {
+	hdone := make(chan struct{})
+	go func() { held.Wait(); close(hdone) }()
+	if !waitOrDeadline(hdone) {
 		// a writer is stuck in open/write beyond every deadline: nothing more can be said
 		tr.log("stall", "what", "writers")
 	}
@@ -421,6 +443,8 @@ func runTrace(c tcase, dir string) {
 	}
 	if c.Mode == "drain" {
 		switch {
+		case holders > 0 && (pipe || (stream && c.OneShot)):
+			// a write end stays open: only cancellation can end the stream
 		case pipe:
 			// the pipe's output ends by itself once its writers are gone, if any byte was written
 			if okBytes.Load() > 0 {
@@ -445,6 +469,9 @@ func runTrace(c tcase, dir string) {
 		doCancel()
 	}
 	ok := waitClosed()
+	if holders > 0 {
+		waitOrDeadline(wdone)
+	}
 	if ok {
 		wgd := make(chan struct{})
 		go func() { wg.Wait(); close(wgd) }()
